@@ -36,10 +36,10 @@ use std::io::Write;
 const MIN: usize = 131_072;
 const MODES: [&str; 3] = ["Strict", "SkipUnsupported", "SkipAll"];
 
-/// (requested entries, byte offset of the window) — size classes: minimum, rounded-up, large.
+/// (requested entries, byte offset of the window) — size classes: minimum, rounded-up, 128 KiB, just above, 256 KiB.
 fn placements(nbytes: usize) -> Vec<(usize, usize)> {
   let mut v = Vec::new();
-  for entries in [MIN, MIN + 1, MIN + 8 * 3 + 5, 1 << 20] {
+  for entries in [MIN, MIN + 1, MIN + 8 * 3 + 5, 1 << 20, (1 << 20) + 9, 1 << 21] {
     let bytes = entries.div_ceil(8);
     for base in [0, 1, bytes / 2, bytes - nbytes] {
       v.push((entries, base));
@@ -314,7 +314,7 @@ fn replay_chunk(cases: &[Value], rep: &mut Report) {
     let post = i(&case["post"]) as u64;
     let p = purpose(s(&case["p"]));
     let all = placements(nbytes);
-    // every case at 3 placements, rotating so that all 16 placements are used evenly
+    // every case at 3 placements, rotating so that all placements (6 sizes x 4 offsets) are used evenly
     let picks: Vec<usize> = (0..3).map(|k| (ci * 3 + k * 5 + (pre as usize)) % all.len()).collect();
     for pk in picks {
       let (entries, base) = all[pk];
@@ -378,9 +378,19 @@ pub fn record(kind: &str, seed: u64, n: u64, out: &mut TraceOut) {
     let pl = Placed { entries, base, nbytes };
     let pstr = if r.gen_bool(0.5) { "revocation" } else { "suspension" };
     let p = purpose(pstr);
-    let mut obj = match kind {
-      "list" => Obj::List(build_list(&pl, 0).unwrap_or_else(|e| tool_error(&e))),
-      _ => Obj::Cred(build_cred(&pl, 0, p).unwrap_or_else(|e| tool_error(&e))),
+    let built = match kind {
+      "list" => guarded(|| build_list(&pl, 0).map(Obj::List)),
+      _ => guarded(|| build_cred(&pl, 0, p).map(Obj::Cred)),
+    };
+    let mut obj = match built {
+      Ok(Ok(o)) => o,
+      Ok(Err(e)) | Err(e) => {
+        // a failure of the code under test is data: the trace specification has no step for it
+        out.event(json!({"op": {"name": "reset"}, "p": pstr, "res": {"ok": false, "failure": e}, "post": 0, "outside": 0,
+          "placement": {"entries": entries, "window_byte_offset": base}}));
+        left = left.saturating_sub(50);
+        continue;
+      }
     };
     out.event(json!({"op": {"name": "reset"}, "p": pstr, "res": {"ok": true}, "post": 0, "outside": 0,
       "placement": {"entries": entries, "window_byte_offset": base}}));
